@@ -37,6 +37,7 @@ TIERS = {
     "quick": dict(runs=dict(C03=40000, C04=40000, C05=30000, C08=12000, C12=30000, C17=60000, C18=12000, C19=20000), maxlog=9, maxlog_tree=6, max_copy=9000, gate=200, cap_s=150, cold=320),
     "thorough": dict(runs=dict(C03=60000, C04=50000, C05=50000, C08=30000, C12=60000, C17=120000, C18=24000, C19=40000), maxlog=12, maxlog_tree=8, max_copy=70000, gate=3000, cap_s=900, cold=3200),
 }
+MAX_FAILING_RUNS = 400  # a sweep stops once this many of its runs failed
 MAX_EVENTS = 60  # violating runs per flavour that are classified (replayed) individually
 MAX_MINIMISE = 3  # distinct violation signatures that are minimised and written as replay files
 
@@ -69,6 +70,8 @@ class Sweep:
         self.first = indices_from
         self.prefix = []  # e.g. valgrind
         self.cold = False  # one run per fresh process, simulated execution before the reference run
+        self.nviol = 0  # runs with a violation in their result line
+        self.stopped_early = False
         self.lock = threading.Lock()
 
     def cmd(self, start):
@@ -82,11 +85,18 @@ class Sweep:
             c.append("--cold")
         return c
 
+    def failures(self):
+        return len(self.crashes) + len(self.sanitizer) + len(self.fatals) + self.nviol
+
     def worker(self, wid):
         start = self.first + wid
         while start < self.n:
             if time.time() > self.deadline:
                 self.timed_out = True
+                return
+            if self.failures() >= MAX_FAILING_RUNS:
+                # the tree is broken: more failing runs add nothing, and every crash costs a process restart
+                self.stopped_early = True
                 return
             p = subprocess.Popen(self.cmd(start), stdout=subprocess.PIPE, stderr=subprocess.PIPE, text=True, bufsize=1)
             cur = None
@@ -113,6 +123,12 @@ class Sweep:
                             continue
                         with self.lock:
                             self.results[i] = r
+                            if not r.get("ok", True):
+                                self.nviol += 1
+                        if self.nviol >= MAX_FAILING_RUNS and not self.cold:
+                            self.stopped_early = True
+                            p.kill()
+                            break
                     elif tag == "X":
                         parts = line.split()
                         with self.lock:
@@ -127,6 +143,8 @@ class Sweep:
                 killer.cancel()
             rc = p.wait()
             et.join(timeout=2)
+            if self.stopped_early:
+                return
             if done and self.cold:
                 start += self.w
                 continue
@@ -311,7 +329,7 @@ def shrink_candidates(plan):
     for i, o in enumerate(ops):
         s = o.get("sim")
         if s:
-            for k, v in (("strategy", "serial-identity"), ("team_shortfall", False), ("dirty_heap", False), ("dirty_caller_buffers", False)):
+            for k, v in (("strategy", "serial-identity"), ("team_shortfall", False), ("dirty_heap", False), ("dirty_caller_buffers", False), ("misaligned_caller_buffers", False), ("main_first", False)):
                 if s.get(k) != v:
                     q = copy.deepcopy(plan)
                     q["plan"][i]["sim"][k] = v
@@ -580,7 +598,7 @@ def main():
         sw = Sweep(bins[f], f, prop, base, n, NPROC, lim_f, deadline, samples=True).run()
         sweeps.append(sw)
         log("sweep %-11s runs=%d wall=%.1fs crashes=%d sanitizer=%d fatals=%d restarts=%d%s" % (f, len(sw.results), sw.wall, len(sw.crashes), len(sw.sanitizer), len(sw.fatals), sw.restarts,
-                                                                                          "  (stopped at the wall-clock cap)" if sw.timed_out else ""))
+                                                                                          "  (stopped at the wall-clock cap)" if sw.timed_out else "  (stopped early: %d failing runs)" % sw.failures() if sw.stopped_early else ""))
 
     # ---- cold-start runs: one run per fresh process, the simulated multi-member execution is the first
     #      library code the process executes (lazily initialised process-global state, first-use races)
@@ -621,7 +639,9 @@ def main():
             gg = g if wcount == 5 else max(20, g // 8)
             if sw.cold:
                 gg = min(gg, 48)
-            s2 = Sweep(sw.binary, sw.flavour, sw.profile, sw.base, gg, wcount, sw.lim, time.time() + 300)
+            if len(sw.crashes) + len(sw.sanitizer) + len(sw.fatals) > 100:
+                gg = min(gg, 40)  # a tree this broken restarts a worker per run; every violation is gated by its own replays anyway
+            s2 = Sweep(sw.binary, sw.flavour, sw.profile, sw.base, gg, wcount, sw.lim, time.time() + 150)
             s2.cold = sw.cold
             s2.run()
             for i, r in s2.results.items():
@@ -632,7 +652,7 @@ def main():
                         log("nondeterminism: %s index %d hash %s vs %s" % (sw.flavour, i, sw.results[i]["hash"], r["hash"]))
             c1 = sorted(c[0] for c in sw.crashes + sw.sanitizer if c[0] < gg)
             c2 = sorted(c[0] for c in s2.crashes + s2.sanitizer)
-            if c1 != c2 and not sw.timed_out:
+            if c1 != c2 and not sw.timed_out and not sw.stopped_early:
                 gate_ok = False
                 log("nondeterminism: %s crash sets differ %s vs %s" % (sw.flavour, c1[:5], c2[:5]))
     if gate_ok:
@@ -820,7 +840,7 @@ def write_evidence(prop, tier, seed, sweeps, infos, gate_checked, violations, kn
             },
             "blind_spot_audit": {f: {"uninstrumented_external_symbols": infos[f]["uninstrumented_external_symbols"], "asm_with_memory_effects": infos[f]["asm_with_memory_effects"]} for f in infos},
             "tree_hash": infos[sweeps[0].flavour]["tree_hash"],
-            "bounds": {"transform_sizes_up_to": 1 << lim["maxlog"], "tree_rows_up_to": 1 << lim["maxlog_tree"], "copy_sizes_up_to": lim["max_copy"], "team_sizes": "1..64"},
+            "bounds": {"transform_sizes_up_to": 1 << lim["maxlog"], "tree_rows_up_to": 1 << lim["maxlog_tree"], "copy_sizes_up_to": lim["max_copy"], "team_sizes": "1..128", "columns_up_to": 1000},
             "runs_with_violation_of_this_property": viol_runs,
             "violations_reported": [dict(replay=v["path"], outcome=v["cls"], report=v["report"], flavour=v["flavour"]) for v in violations],
             "known_findings_matched": [k[0].get("what", "") for k in known_hits],
@@ -852,7 +872,7 @@ EXPECTED_PROBES = {
     "C04": ["size<maxDomain", "intt_last_pass_width1", "intt_last_pass_wider", "intt_null_dst_nblock>1", "nphase_not_dividing_log", "fault_free_configuration"],
     "C05": ["extend_even_nphase_single_block", "extend_N==1", "extend_N==N_ext", "extend_in_place", "size<maxDomain", "fault_free_configuration"],
     "C08": ["rows==1", "rowlen%8!=0", "rowlen<=4_passthrough", "cols==0", "batch_not_dividing_cols", "batch>=cols", "merkle_nThreads0_after_icv_perturb", "dim>1", "team>trip_count", "fault_free_configuration"],
-    "C12": ["team>trip_count", "team==trip_count", "team<trip_count", "team==1", "three_members_in_flight", "shortfall_fired", "limit_capped", "team==64"],
+    "C12": ["team>trip_count", "team==trip_count", "team<trip_count", "team==1", "three_members_in_flight", "shortfall_fired", "limit_capped", "team>=64", "team>64", "main_before_reference"],
     "C17": ["copy_size0", "copy_threads<1", "copy_threads>size", "copy_last_chunk_short", "copy_threads_huge"],
     "C18": ["object_destroyed_after_extend", "object_destroyed", "rows==1", "size==1"],
     "C19": ["object_reused", "second_extend_with_different_N", "size<maxDomain", "merkle_nThreads0_after_icv_perturb"],
